@@ -126,9 +126,44 @@ def components(n, edges):
 PATTERN_NMAX = {"quick": 5, "thorough": 6}  # geometry-less variants are run for graphs up to this many nodes
 
 
+def big_graphs():
+    """(name, n, edge list) of a few graphs far beyond the exhaustive bound: degrees of 256 and more, a long path."""
+    yield "K257", 257, [(i, j) for i in range(257) for j in range(i + 1, 257)]
+    yield "K257+3iso", 260, [(i, j) for i in range(257) for j in range(i + 1, 257)]
+    yield "K256,256", 512, [(i, 256 + j) for i in range(256) for j in range(256)]
+    yield "path300", 300, [(i, i + 1) for i in range(299)]
+    yield "star300+path", 310, [(0, i) for i in range(1, 300)] + [(300 + i, 301 + i) for i in range(9)]
+
+
+def run_big(case):
+    out = Out(case)
+    name, n, edges = next(g for g in big_graphs() if g[0] == case["graph"])
+    rec = recording(duration=100.0)
+    evs = [data.SoundEvent(uuid=U("c13:big:%d" % i), recording=rec, geometry=mkgeom("TimeStamp", float(i))) for i in range(n)]
+    pos = {e.uuid: i for i, e in enumerate(evs)}
+    edge_set = set(edges)
+
+    def compare(a, b):
+        i, j = pos[a.uuid], pos[b.uuid]
+        return ((i, j) if i < j else (j, i)) in edge_set
+    expected = sorted(components(n, edges))
+    out.transitions = out.validated = 1
+    out.nontrivial = True
+    try:
+        result = group_sound_events(evs, compare)
+        got = sorted(tuple(sorted(pos[se.uuid] for se in s.sound_events)) for s in result)
+    except Exception as e:  # noqa
+        out.fail("components", ["exception", type(e).__name__], "%d components" % len(expected), _cls("exception", exc=type(e).__name__, big=name))
+        return out
+    out.expect("components", got == [tuple(c) for c in expected], {"n_sequences": len(got), "sizes": sorted(len(g) for g in got)[-3:]},
+               {"n_sequences": len(expected), "sizes": sorted(len(c) for c in expected)[-3:]}, _cls("big", big=name))
+    out.klass = "big:%s" % ("ok" if not out.viol else "differs")
+    return out
+
+
 def blocks(tier):
     nmax = NMAX[tier]
-    out = []
+    out = [{"big": 1, "tier": tier}]
     # n <= 5: 1 + 1 + 2 + 8 + 64 + 1024 graphs
     out.append({"n": [0, 1, 2, 3, 4], "lo": 0, "hi": None, "tier": tier})
     for lo in range(0, graphs_size(5), 256):
@@ -141,6 +176,10 @@ def blocks(tier):
 
 
 def run_block(block, rec):
+    if block.get("big"):
+        for name, _, _ in big_graphs():
+            rec.add(run_big({"big": 1, "graph": name}))
+        return
     events()
     for n in block["n"]:
         total = graphs_size(n)
@@ -319,6 +358,8 @@ def run_twin_case(case):
 
 
 def replay_case(case):
+    if "big" in case:
+        return run_big(case)
     if "twin" in case:
         events()
         return run_twin_case(case)
